@@ -455,9 +455,7 @@ pub fn reader_backend_kinds_step<E: En, W: VW + DoubleType, S: Src, const K: usi
 where
     Bb<W>: VW,
     Rd<E, W, K>: RdOk<E, W, K>,
-    for<'a> BufBitReader<E, MemWordReader<W, &'a [W], false>>: BitRead<E, Error = std::io::Error, PeekWord = Bb<W>>,
     for<'a> BufBitReader<E, MemWordWriterSlice<W, &'a mut [W]>>: BitRead<E, Error = std::io::Error, PeekWord = Bb<W>>,
-    for<'a> BufBitReader<E, WordAdapter<W, std::io::Cursor<&'a [u8]>>>: BitRead<E, Error = std::io::Error, PeekWord = Bb<W>>,
 {
     let st = RState::<W, K>::any::<E, S>(s, 2 * W::NBITS - 1);
     let m = s.usize_in(0, 64);
@@ -480,15 +478,6 @@ where
             assert!(b == b0 && n == n0, $what);
         }};
     }
-    // strict reader
-    {
-        let mut b = MemWordReader::new_strict(&st.data[..]);
-        let ok = b.set_word_pos(st.pos as u64).is_ok();
-        assert!(ok);
-        let mut r = BufBitReader::<E, _>::verif_from_parts(b, st.buffer, st.n);
-        same!(r, "strict MemWordReader differs from the zero-extended one inside the data");
-        core::mem::forget(r);
-    }
     // fixed-slice writer read back
     {
         let mut copy = st.data;
@@ -499,24 +488,58 @@ where
         same!(r, "fixed-slice writer read back differs from the memory reader");
         core::mem::forget(r);
     }
-    // byte-stream adapter over a Cursor on the native bytes of the same words
-    {
-        let nb = W::NBITS / 8;
-        let mut bytes = [0u8; 32];
-        assert!(K * nb <= 32);
-        let mut i = 0;
-        while i < K * nb {
-            bytes[i] = ((st.data[i / nb].to_u128() >> (8 * (i % nb))) & 0xff) as u8;
-            i += 1;
-        }
-        let mut b = WordAdapter::<W, _>::new(std::io::Cursor::new(&bytes[..K * nb]));
-        let ok = b.set_word_pos(st.pos as u64).is_ok();
-        assert!(ok);
-        let mut r = BufBitReader::<E, _>::verif_from_parts(b, st.buffer, st.n);
-        same!(r, "byte-stream adapter differs from the memory reader");
-        core::mem::forget(r);
-    }
     crate::cover!(s, m > st.n, "read refills from the backend");
+}
+
+/// byte-stream adapter as a reader backend: a fresh BufBitReader over WordAdapter<W, Cursor<&[u8]>> positioned
+/// with set_bit_pos(p) reads the same bits as over the memory reader (2 words of data, inside the data)
+pub fn reader_adapter_step<E: En, W: VW + DoubleType, S: Src>(s: &mut S)
+where
+    Bb<W>: VW,
+    for<'a> BufBitReader<E, WordAdapter<W, std::io::Cursor<&'a [u8]>>>: BitRead<E, Error = std::io::Error, PeekWord = Bb<W>> + BitSeek<Error = std::io::Error>,
+{
+    let data = any_array::<W, S, 2>(s);
+    let nb = W::NBITS / 8;
+    let mut bytes = [0u8; 16];
+    let mut i = 0;
+    while i < 2 * nb {
+        bytes[i] = ((data[i / nb].to_u128() >> (8 * (i % nb))) & 0xff) as u8;
+        i += 1;
+    }
+    let p = s.usize_in(0, W::NBITS);
+    let m = s.usize_in(0, if W::NBITS < 64 { W::NBITS } else { 64 });
+    let j = s.usize();
+    s.assume(m == 0 || j < m);
+    let mut r = BufBitReader::<E, _>::new(WordAdapter::<W, _>::new(std::io::Cursor::new(&bytes[..2 * nb])));
+    let ok = match r.set_bit_pos(p as u64) {
+        Ok(()) => true,
+        Err(e) => {
+            core::mem::forget(e);
+            false
+        }
+    };
+    assert!(ok, "seek inside the byte stream failed");
+    let got = match r.read_bits(m) {
+        Ok(x) => Some(x),
+        Err(e) => {
+            core::mem::forget(e);
+            None
+        }
+    };
+    assert!(got.is_some(), "read inside the byte stream failed");
+    if m > 0 {
+        assert_eq!(field_bit::<E>(got.unwrap(), m, j), img_bit::<E, W>(&data, p + j), "bits read through the byte-stream adapter differ from the memory image");
+    }
+    let bp = match r.bit_pos() {
+        Ok(x) => x,
+        Err(e) => {
+            core::mem::forget(e);
+            u64::MAX
+        }
+    };
+    assert_eq!(bp, (p + m) as u64, "bit position over the byte-stream adapter");
+    crate::cover!(s, p % 8 != 0 && m > 8, "unaligned");
+    core::mem::forget(r);
 }
 
 crate::harnesses! {
@@ -606,33 +629,49 @@ crate::harnesses! {
     #[kani::stub(alloc::fmt::format, crate::c13::stub_format)]
     #[kani::stub(std::string::ToString::to_string, crate::c13::stub_to_string)]
     #[kani::unwind(36)]
-    c02_backends_be_u8 (thorough, "BE,u8,K=10: strict MemWordReader / MemWordWriterSlice read back / WordAdapter<Cursor> vs zero-extended", "read_bits(n<=64) inside the data from any Inv_r state: same value and state over every backend kind") => reader_backend_kinds_step::<BE, u8, _, 10>;
+    c02_backends_be_u8 (thorough, "BE,u8,K=10: MemWordWriterSlice read back vs zero-extended MemWordReader (strict reader: C09; byte-stream adapter: c02_adapter_*)", "read_bits(n<=64) inside the data from any Inv_r state: same value and state over every backend kind") => reader_backend_kinds_step::<BE, u8, _, 10>;
     #[kani::stub(alloc::fmt::format, crate::c13::stub_format)]
     #[kani::stub(std::string::ToString::to_string, crate::c13::stub_to_string)]
     #[kani::unwind(36)]
-    c02_backends_be_u16 (thorough, "BE,u16,K=6: strict MemWordReader / MemWordWriterSlice read back / WordAdapter<Cursor> vs zero-extended", "read_bits(n<=64) inside the data from any Inv_r state: same value and state over every backend kind") => reader_backend_kinds_step::<BE, u16, _, 6>;
+    c02_backends_be_u16 (thorough, "BE,u16,K=6: MemWordWriterSlice read back vs zero-extended MemWordReader (strict reader: C09; byte-stream adapter: c02_adapter_*)", "read_bits(n<=64) inside the data from any Inv_r state: same value and state over every backend kind") => reader_backend_kinds_step::<BE, u16, _, 6>;
     #[kani::stub(alloc::fmt::format, crate::c13::stub_format)]
     #[kani::stub(std::string::ToString::to_string, crate::c13::stub_to_string)]
     #[kani::unwind(36)]
-    c02_backends_be_u32 (quick, "BE,u32,K=4: strict MemWordReader / MemWordWriterSlice read back / WordAdapter<Cursor> vs zero-extended", "read_bits(n<=64) inside the data from any Inv_r state: same value and state over every backend kind") => reader_backend_kinds_step::<BE, u32, _, 4>;
+    c02_backends_be_u32 (quick, "BE,u32,K=4: MemWordWriterSlice read back vs zero-extended MemWordReader (strict reader: C09; byte-stream adapter: c02_adapter_*)", "read_bits(n<=64) inside the data from any Inv_r state: same value and state over every backend kind") => reader_backend_kinds_step::<BE, u32, _, 4>;
     #[kani::stub(alloc::fmt::format, crate::c13::stub_format)]
     #[kani::stub(std::string::ToString::to_string, crate::c13::stub_to_string)]
     #[kani::unwind(36)]
-    c02_backends_be_u64 (thorough, "BE,u64,K=3: strict MemWordReader / MemWordWriterSlice read back / WordAdapter<Cursor> vs zero-extended", "read_bits(n<=64) inside the data from any Inv_r state: same value and state over every backend kind") => reader_backend_kinds_step::<BE, u64, _, 3>;
+    c02_backends_be_u64 (thorough, "BE,u64,K=3: MemWordWriterSlice read back vs zero-extended MemWordReader (strict reader: C09; byte-stream adapter: c02_adapter_*)", "read_bits(n<=64) inside the data from any Inv_r state: same value and state over every backend kind") => reader_backend_kinds_step::<BE, u64, _, 3>;
     #[kani::stub(alloc::fmt::format, crate::c13::stub_format)]
     #[kani::stub(std::string::ToString::to_string, crate::c13::stub_to_string)]
     #[kani::unwind(36)]
-    c02_backends_le_u8 (thorough, "LE,u8,K=10: strict MemWordReader / MemWordWriterSlice read back / WordAdapter<Cursor> vs zero-extended", "read_bits(n<=64) inside the data from any Inv_r state: same value and state over every backend kind") => reader_backend_kinds_step::<LE, u8, _, 10>;
+    c02_backends_le_u8 (thorough, "LE,u8,K=10: MemWordWriterSlice read back vs zero-extended MemWordReader (strict reader: C09; byte-stream adapter: c02_adapter_*)", "read_bits(n<=64) inside the data from any Inv_r state: same value and state over every backend kind") => reader_backend_kinds_step::<LE, u8, _, 10>;
     #[kani::stub(alloc::fmt::format, crate::c13::stub_format)]
     #[kani::stub(std::string::ToString::to_string, crate::c13::stub_to_string)]
     #[kani::unwind(36)]
-    c02_backends_le_u16 (quick, "LE,u16,K=6: strict MemWordReader / MemWordWriterSlice read back / WordAdapter<Cursor> vs zero-extended", "read_bits(n<=64) inside the data from any Inv_r state: same value and state over every backend kind") => reader_backend_kinds_step::<LE, u16, _, 6>;
+    c02_backends_le_u16 (quick, "LE,u16,K=6: MemWordWriterSlice read back vs zero-extended MemWordReader (strict reader: C09; byte-stream adapter: c02_adapter_*)", "read_bits(n<=64) inside the data from any Inv_r state: same value and state over every backend kind") => reader_backend_kinds_step::<LE, u16, _, 6>;
     #[kani::stub(alloc::fmt::format, crate::c13::stub_format)]
     #[kani::stub(std::string::ToString::to_string, crate::c13::stub_to_string)]
     #[kani::unwind(36)]
-    c02_backends_le_u32 (thorough, "LE,u32,K=4: strict MemWordReader / MemWordWriterSlice read back / WordAdapter<Cursor> vs zero-extended", "read_bits(n<=64) inside the data from any Inv_r state: same value and state over every backend kind") => reader_backend_kinds_step::<LE, u32, _, 4>;
+    c02_backends_le_u32 (thorough, "LE,u32,K=4: MemWordWriterSlice read back vs zero-extended MemWordReader (strict reader: C09; byte-stream adapter: c02_adapter_*)", "read_bits(n<=64) inside the data from any Inv_r state: same value and state over every backend kind") => reader_backend_kinds_step::<LE, u32, _, 4>;
     #[kani::stub(alloc::fmt::format, crate::c13::stub_format)]
     #[kani::stub(std::string::ToString::to_string, crate::c13::stub_to_string)]
     #[kani::unwind(36)]
-    c02_backends_le_u64 (thorough, "LE,u64,K=3: strict MemWordReader / MemWordWriterSlice read back / WordAdapter<Cursor> vs zero-extended", "read_bits(n<=64) inside the data from any Inv_r state: same value and state over every backend kind") => reader_backend_kinds_step::<LE, u64, _, 3>;
+    c02_backends_le_u64 (thorough, "LE,u64,K=3: MemWordWriterSlice read back vs zero-extended MemWordReader (strict reader: C09; byte-stream adapter: c02_adapter_*)", "read_bits(n<=64) inside the data from any Inv_r state: same value and state over every backend kind") => reader_backend_kinds_step::<LE, u64, _, 3>;
+    #[kani::stub(alloc::fmt::format, crate::c13::stub_format)]
+    #[kani::stub(std::string::ToString::to_string, crate::c13::stub_to_string)]
+    #[kani::unwind(20)]
+    c02_adapter_be_u16 (thorough, "BE,u16: BufBitReader over WordAdapter<u16, Cursor<&[u8]>> (2 words)", "set_bit_pos(p<=W) then read_bits(n<=W) inside the data: same bits as the memory image, exact position") => reader_adapter_step::<BE, u16, _>;
+    #[kani::stub(alloc::fmt::format, crate::c13::stub_format)]
+    #[kani::stub(std::string::ToString::to_string, crate::c13::stub_to_string)]
+    #[kani::unwind(20)]
+    c02_adapter_be_u32 (thorough, "BE,u32: BufBitReader over WordAdapter<u32, Cursor<&[u8]>> (2 words)", "set_bit_pos(p<=W) then read_bits(n<=W) inside the data: same bits as the memory image, exact position") => reader_adapter_step::<BE, u32, _>;
+    #[kani::stub(alloc::fmt::format, crate::c13::stub_format)]
+    #[kani::stub(std::string::ToString::to_string, crate::c13::stub_to_string)]
+    #[kani::unwind(20)]
+    c02_adapter_le_u16 (thorough, "LE,u16: BufBitReader over WordAdapter<u16, Cursor<&[u8]>> (2 words)", "set_bit_pos(p<=W) then read_bits(n<=W) inside the data: same bits as the memory image, exact position") => reader_adapter_step::<LE, u16, _>;
+    #[kani::stub(alloc::fmt::format, crate::c13::stub_format)]
+    #[kani::stub(std::string::ToString::to_string, crate::c13::stub_to_string)]
+    #[kani::unwind(20)]
+    c02_adapter_le_u32 (thorough, "LE,u32: BufBitReader over WordAdapter<u32, Cursor<&[u8]>> (2 words)", "set_bit_pos(p<=W) then read_bits(n<=W) inside the data: same bits as the memory image, exact position") => reader_adapter_step::<LE, u32, _>;
 }
